@@ -159,7 +159,7 @@ def prove(ctx, propfile=None):
     return ok
 
 # ---------------------------------------------------------------- harness builds
-CFLAGS = ['-O1', '-g', '-w', '-DURCU_VERIF', '-I' + os.path.join(REPO, 'include'), '-I' + os.path.join(REPO, 'src'), '-I' + HARN]
+CFLAGS = ['-O1', '-g', '-w', '-DURCU_VERIF', '-I' + os.path.join(REPO, 'include'), '-I' + os.path.join(REPO, 'src'), '-iquote', HARN, '-include', os.path.join(REPO, 'include', 'config.h')]     # config.h first, as in the library's own build (AM_CPPFLAGS)
 
 def build_scenario(ctx, name, src, extra_src=(), defs=(), hooks=True, out=None, cflags=None, libs=('-lpthread',), cc='gcc', plain=False):
     """Compile a harness translation unit (which #includes the real sources from /repo's working tree)."""
